@@ -52,6 +52,18 @@ def run(ctx):
     ev.append(md6_event(256, b'', 64, 1, b'ab', 17))                            # bit length beyond the data
     for d, key, L, M in ((256, b'', 64, b'abc'), (224, b'', 64, b''), (512, b'key', 64, b'abc' * 50), (256, b'', 0, b'abc')):
         ev.append(md6_event(d, key, L, None, M, None))                           # default round counts
+    from crysp.md import MD6
+    for (d, key, L) in ((256, b'', 0), (224, b'k', 1), (256, b'', 64), (160, b'key', 2)):
+        try:
+            h = MD6(d, key, L); h.rounds = 3
+        except Exception: continue
+        for n, bo in ((700, 0), (3, 0), (1300, 5), (600, 0), (2100, 0)):
+            M = rb(n); bitlen = None if not bo else 8 * n - bo
+            e = dict(op='md6', d=d, key=B(key), L=L, r=3, m=B(M), bitlen=-1 if bitlen is None else bitlen, raised='', obs=[])
+            try:
+                out = h(M, bitlen) if bitlen is not None else h(M); e['obs'] = B(out)
+            except Exception as ex: e['raised'] = type(ex).__name__
+            ev.append(e); ctx.mark(('reuse', d, L, n))
     ctx.exhaustive_subspaces.append('configuration grid: d in {1,8,160,224,256,384,511,512} x key lengths {0,1,63,64} x L in {0,1,2,3,64} x leaf-block counts 0,1,2..4,5..16,17+ x every bitlen mod 8 (rotating combination)')
     ctx.evaluations = len(ev); ctx.sample(ev[3]); ctx.sample(ev[-1])
     traces = [dict(ev=[e]) for e in ev]
